@@ -20,7 +20,7 @@ func init() {
 			"(c) in the loop that builds attestations, AggregationBits is a bitlist of committeeSizes[i] with bit validatorCommitteeIndices[i] set, Data.Index is committeeIndices[i], Data.Slot is duty.Slot(), root/source/target come from the data parameter and the signature is sigs[i], all with the same i; " +
 			"(d) an attestation is appended only when sigs[i] is non-zero; (e) committeeSizes[i] is duty.CommitteeSize(committeeIndices[i]) for the same i; " +
 			"(f) the committee indices and data fields handed to the signer are the same values used to build the attestations. " +
-			"Added with the third seeding round: (h) outside NewDuty nothing sorts, shuffles, overwrites or copies into an array of an attester duty (through its fields or its getters). Added with the fourth seeding round: (i) the per-validator arrays handed to the signer and the constructor are not fields of the service. NOT decided: that the signer signs over these values (C06 covers its inputs), correctness of the beacon node's committee data, behaviour for arbitrary duty compositions beyond the index-space argument.",
+			"Added with the third seeding round: (h) outside NewDuty nothing sorts, shuffles, overwrites or copies into an array of an attester duty (through its fields or its getters). Added with the fourth seeding round: (i) the per-validator arrays handed to the signer and the constructor are not fields of the service. Added with the fifth seeding round: (j) every pass of the loop that fills the per-validator arrays stores into all of them; (y) C03.j (per-slot arguments of NewDuty) is taken over. NOT decided: that the signer signs over these values (C06 covers its inputs), correctness of the beacon node's committee data, behaviour for arbitrary duty compositions beyond the index-space argument.",
 		Technique: "index-space (provenance of indices) analysis on the typed AST with callee summaries; SSA provenance of composite-literal fields; guard-by-edge-deletion for the zero-signature test",
 		Rule:      "one obligation per analysed function with indexed accesses (a,b), per attestation field (c), per append (d), per store (e), per signer argument (f)",
 	})
@@ -236,6 +236,67 @@ func runC04(p *core.Prog, r *core.Report, tier string) {
 	if nArr == 0 {
 		r.Hold("C04.i", "working-arrays-per-run", "", "no slice handed to the signer or a helper of the attester is held in a field of the service")
 	}
+
+	// (j) the per-validator arrays are filled for every account: in a loop that stores into several of them at the loop
+	// index, every pass performs all of those stores (a pass that skips one leaves a zero — position 0, committee 0 —
+	// for an account that is still signed for and submitted)
+	nFill := 0
+	for _, f := range p.FuncsIn(attRel) {
+		type fill struct {
+			st   *ssa.Store
+			coll ssa.Value
+		}
+		byIdx := map[ssa.Value][]fill{}
+		core.EachInstr(f, func(in ssa.Instruction) {
+			st, ok := in.(*ssa.Store)
+			if !ok {
+				return
+			}
+			ia, ok := st.Addr.(*ssa.IndexAddr)
+			if !ok {
+				return
+			}
+			if _, isLocal := ia.X.(*ssa.MakeSlice); !isLocal {
+				return
+			}
+			if _, ok := core.RangeIndex(ia.Index); !ok {
+				return
+			}
+			byIdx[ia.Index] = append(byIdx[ia.Index], fill{st, ia.X})
+		})
+		for idx, fills := range byIdx {
+			if len(fills) < 2 {
+				continue
+			}
+			_ = idx
+			for _, fl := range fills {
+				nFill++
+				// the loop header: the block of the index phi
+				var header *ssa.BasicBlock
+				for _, h := range f.Blocks {
+					if !h.Dominates(fl.st.Block()) {
+						continue
+					}
+					back := false
+					for _, pr := range h.Preds {
+						if h.Dominates(pr) {
+							back = true
+						}
+					}
+					if back && (header == nil || header.Dominates(h)) {
+						header = h
+					}
+				}
+				if header == nil {
+					continue
+				}
+				w := core.PathQuery{Fn: f, From: header.Instrs[len(header.Instrs)-1], Target: func(x ssa.Instruction) bool { return x.Block() == header }, Avoid: func(x ssa.Instruction) bool { return x == ssa.Instruction(fl.st) }}.Find()
+				r.Check(w == nil, "C04.j", fmt.Sprintf("%s|filled-on-every-pass|%s#%d", core.FnKey(f), ds.D(fl.coll).String(), nFill), p.Pos(fl.st.Pos()), "every pass of the loop stores this array's element",
+					"a pass of the loop can end without storing this array's element (a `continue` before the store): the account of that pass keeps the zero value — position 0 or committee 0 — and is still signed for and submitted with it", p.WitnessText(w)...)
+			}
+		}
+	}
+	r.Floor("C04.j per-validator array stores in loops", nFill, 3)
 
 	// (f) what is signed is what is submitted: the sign call and the constructor call in the same function share argument values
 	for _, f := range p.FuncsIn(attRel) {
